@@ -261,6 +261,13 @@ def F55():
 def F56():
     d = Formula("b ~ a:b + a").differentiate("a")
     return exc(lambda: d.get_model_matrix(df, context={})) is not None or exc(lambda: d.differentiate("b")) is not None
+def F57():
+    d = pd.DataFrame({"\u00b5g": [1.0, 2, 3], "x": [1.0, 2, 4]})
+    try:
+        m = model_matrix("log(`\u00b5g`) + x", d, context={})
+    except Exception:
+        return True
+    return not np.allclose(m.values[:, 1], np.log([1.0, 2, 3]))
 
 ids = sys.argv[1:] or [f"F{i}" for i in range(1, 26)]
 for i in ids:
